@@ -112,6 +112,15 @@ class DSDLDefinition(ReadableDSDLFile):
         # but we do it second because it reads the filesystem.
         if not dsdl_path.is_absolute():
             for path_to_root in valid_dsdl_roots:
+                # The target may be given relative to the current working directory while the root is absolute
+                # (e.g., root "/path/to/workspace/types/animals", target "types/animals/felines/Tabby.1.0.dsdl").
+                if path_to_root.is_absolute():
+                    try:
+                        _ = dsdl_path.resolve(strict=True).relative_to(path_to_root.resolve(strict=False))
+                    except (ValueError, OSError):
+                        pass
+                    else:
+                        return path_to_root
                 path_to_root_parent = path_to_root
                 while path_to_root_parent != path_to_root_parent.parent:
                     # Weld together and check only if the root's last part is the same name as the target's first part.
@@ -166,6 +175,13 @@ class DSDLDefinition(ReadableDSDLFile):
             except ValueError:
                 # The target is given relative to the parent of the root (e.g., "animals/felines/Tabby.1.0.dsdl").
                 dsdl_path_resolved = (root_path.parent / dsdl_path).resolve(strict=False)
+                if not dsdl_path_resolved.exists():
+                    # ...or relative to the current working directory while the root is absolute.
+                    try:
+                        _ = dsdl_path.resolve(strict=True).relative_to(root_path.resolve(strict=False))
+                        dsdl_path_resolved = dsdl_path.resolve(strict=True)
+                    except (ValueError, OSError):
+                        pass
         return cls(dsdl_path_resolved, root_path)
 
     def __init__(self, file_path: Path, root_namespace_path: Path):
